@@ -826,6 +826,8 @@ def _rename_fields(x, ren):
     if isinstance(x, dict):
         if "f" in x and "adt" in x and (x["adt"], x["f"]) in ren:
             x["f"] = ren[(x["adt"], x["f"])]
+        if x.get("agg") == "adt" and isinstance(x.get("fields"), list) and x.get("adt"):
+            x["fields"] = [ren.get((x["adt"], f), f) for f in x["fields"]]
         for v in x.values():
             _rename_fields(v, ren)
     elif isinstance(x, list):
@@ -840,6 +842,23 @@ class Crate:
         self.field_aliases = {}
         if use_anchors and j.get("crate") == "slotted_egraphs":
             ren = _field_aliases(j)
+            # a private struct that did not exist in the reviewed tree and merely gives names to the components of what was a tuple
+            # (`(Slot, Slot)` -> `Entry { key, val }`, `(usize, String)` -> `ShowEntry { idx, line }`): its fields are presented by
+            # position, as a tuple's are
+            table_ = _anchor_adts()
+            if table_:
+                known_last_ = {p_.split("::")[-1] for p_ in table_}
+                for a in j.get("adts", []):
+                    pth = a["path"]
+                    if pth in table_ or pth.split("::")[-1] in known_last_ or pth.startswith(("std::", "core::", "alloc::")) or a.get("kind") != "Struct":
+                        continue
+                    if len(a["variants"]) != 1 or not (2 <= len(a["variants"][0]["fields"]) <= 4):
+                        continue
+                    fs_ = a["variants"][0]["fields"]
+                    if all(str(f["name"]).isdigit() for f in fs_):
+                        continue
+                    for k_, f in enumerate(fs_):
+                        ren[(pth, f["name"])] = str(k_)
             if ren:
                 # rules address fields by the names of the reviewed tree
                 j = json.loads(json.dumps(j))
